@@ -61,4 +61,9 @@ Rows ==
     <<"gat", "7", "0", "-1", "f:0">>, <<"gat", "8", "0", "-1", "f:256">>, <<"gat", "8", "0", "0", "f:0">>,
     <<"putraw", "128", "7">>, <<"putraw", "0", "7">>, <<"putraw", "256", "8">>, <<"putraw", "256", "7">>,
     <<"putnew", "0", "-1">> }
+\* the slot's cursor (start row inside its reserved tree) x allocation orders through the same slot:
+\* targeted allocations move the cursor into other huge frames, frees through the slot refill the reservation
+Cursor ==
+  { <<"get", "0", "0", "0", "-1">>, <<"gat", "0", "0", "0", "f:600">>, <<"gat", "0", "0", "0", "f:1600">>,
+    <<"putnew", "0", "0">>, <<"get", "TO", "0", "0", "-1">>, <<"get", "HO+1", "0", "0", "-1">> }
 =============================================================================
